@@ -4,6 +4,7 @@ CONSTANTS Keys = {"a", "b"}
           NLo = 3
           NHi = 3
           ConAdjs = {"f", "p", "m"}
+          ConFull = FALSE
           Rich = TRUE
           MaxObj = 8
           Depth = 7
